@@ -1,8 +1,11 @@
 //! C07: payload iteration returns every file's exact content under its own metadata.
 //!
-//! `files comp=<type>[:<level>] large=<0|1> [f=<hexdest>:<octperm>:<size>:<kind><seed>]*`
+//! `files comp=<type>[:<level>] large=<0|1> [thr=<N>] [f=<hexdest>:<octperm>:<size>:<kind><seed>]*`
 //!     builds a package with the real `PackageBuilder` (source files in a scratch directory under
 //!     `work/`), writes it to bytes, re-parses it and iterates `Package::files()`.
+//!     `large=1` forces the large-file (stripped cpio) form through the rpm_verif hook (threshold 0); `thr=<N>` sets the
+//!     hook's threshold to N instead, so that the builder's switch `combined_file_sizes > threshold` — the guard in front of
+//!     `payload::Writer`, whose `u32` arithmetic needs it — is exercised AT its boundary (combined = N, N + 1).
 //!     Content generators (the Lean driver regenerates the same bytes):
 //!       kind `r` (compressible): byte i = (seed + i) mod 251
 //!       kind `p` (incompressible): splitmix64 — state s0 = seed; block k: s += 0x9E3779B97F4A7C15,
@@ -178,6 +181,7 @@ fn files_op(a: &[&str]) -> Option<String> {
     let mut comp = rpm::CompressionWithLevel::None;
     let mut is_none = true;
     let mut large = false;
+    let mut thr: Option<u64> = None;
     let mut specs: Vec<(String, u16, usize, char, u64)> = Vec::new();
     for t in a {
         if let Some(c) = t.strip_prefix("comp=") {
@@ -185,6 +189,8 @@ fn files_op(a: &[&str]) -> Option<String> {
             is_none = c == "none";
         } else if let Some(l) = t.strip_prefix("large=") {
             large = l == "1";
+        } else if let Some(n) = t.strip_prefix("thr=") {
+            thr = Some(n.parse().ok()?);
         } else if let Some(f) = t.strip_prefix("f=") {
             let p: Vec<&str> = f.split(':').collect();
             if p.len() != 4 { return None; }
@@ -213,7 +219,9 @@ fn files_op(a: &[&str]) -> Option<String> {
         };
     }
     let _guard = LargeGuard;
-    if large {
+    if let Some(n) = thr {
+        rpm::verif_hooks::set_large_file_threshold(Some(n));
+    } else if large {
         rpm::verif_hooks::set_large_file_threshold(Some(0));
     }
     let pkg = match b.build() {
@@ -436,6 +444,15 @@ pub fn gen(ctx: &mut Ctx) {
                     fspec(b"/p/first", 0o644, a, 'p', a as u64), fspec(b"/p/second", 0o755, b, 'p', b as u64 + 100),
                     fspec(b"/p/third", 0o600, 3, 'r', 5)));
             }
+        }
+    }
+    // the large-file switch at its boundary (hook threshold N): combined size N - 1, N, N + 1, for sizes of every class mod 4
+    for (a, b) in [(0usize, 0usize), (1, 0), (3, 4), (4, 4), (5, 7), (4095, 1), (4096, 4096)] {
+        for d in [-1i64, 0, 1] {
+            let n = (a + b) as i64 + d;
+            if n < 0 { continue; }
+            e.req(&format!("files comp=none large=0 thr={} {} {}", n,
+                fspec(b"/t/a", 0o644, a, 'p', a as u64 + 1), fspec(b"/t/b", 0o755, b, 'r', b as u64 + 2)));
         }
     }
     // name lengths: every length mod 4 around short names, and up to the 4096 limit
